@@ -2,6 +2,9 @@ package main
 
 import (
 	"bytes"
+	"os"
+	"path/filepath"
+	"reflect"
 	"encoding/xml"
 	"errors"
 	"fmt"
@@ -118,6 +121,20 @@ func ltRun(toks []string) string {
 func execLT(_ *config, op string) string {
 	toks := strings.Fields(op)
 	switch toks[0] {
+	case "rt":
+		var out string
+		cls, _ := classify(func() error { out = ltRoundTrip(toks[3:]); return nil })
+		if cls == "panic" {
+			return "panic"
+		}
+		return out
+	case "dec":
+		var out string
+		cls, _ := classify(func() error { out = ltDecodeOp(toks[1]); return nil })
+		if cls == "panic" {
+			return "panic"
+		}
+		return out
 	case "run":
 		var out string
 		cls, _ := classify(func() error { out = ltRun(toks); return nil })
@@ -129,7 +146,76 @@ func execLT(_ *config, op string) string {
 	return "bad"
 }
 
+func ltGenDB(r *rng, s *sink, domain bool) *laptimer.DB {
+	g := &ltGen{r: r, s: s, domain: domain}
+	db := &laptimer.DB{}
+	g.value(reflect.ValueOf(db).Elem(), "", 0)
+	if r.chance(1, 2) {
+		db.Name = "LapTimer Database"
+	}
+	s.count("lt.laps." + bucket(len(db.Laps)))
+	return db
+}
+
+func ltMutateDoc(r *rng, b []byte) []byte {
+	b = append([]byte{}, b...)
+	if len(b) == 0 {
+		return b
+	}
+	for n := 1 + r.intn(2); n > 0; n-- {
+		i := r.intn(len(b))
+		switch r.intn(7) {
+		case 0: // replace a byte with an XML-significant or numeric character
+			b[i] = pick(r, []byte("<>&;\"'/=.,:-0123456789 \t\nxe%"))
+		case 1: // delete a span
+			j := i + r.intn(12)
+			if j > len(b) {
+				j = len(b)
+			}
+			b = append(b[:i], b[j:]...)
+		case 2: // duplicate a span
+			j := i + r.intn(40)
+			if j > len(b) {
+				j = len(b)
+			}
+			b = append(b[:j], append(append([]byte{}, b[i:j]...), b[j:]...)...)
+		case 3: // insert an entity or reference
+			ins := pick(r, []string{"&lt;", "&#65;", "&#x41;", "&quote;", "&#1;", "&amp", "&#xD;", "&;", "&apos;", "<!-- c -->", "<x/>", "<y>1</y>", "\r\n", "\r"})
+			b = append(b[:i], append([]byte(ins), b[i:]...)...)
+		case 4: // truncate
+			b = b[:i]
+		case 5: // swap a digit
+			for k := i; k < len(b); k++ {
+				if b[k] >= '0' && b[k] <= '9' {
+					b[k] = byte('0' + r.intn(10))
+					break
+				}
+			}
+		default: // change the declared charset
+			b = bytes.Replace(b, []byte(`encoding="UTF-8"`), []byte(pick(r, []string{`encoding="windows-1252"`, `encoding="utf-8"`, `encoding='UTF-8'`, `encoding="latin1"`, ``})), 1)
+		}
+		if len(b) == 0 {
+			break
+		}
+	}
+	return b
+}
+
 func genLT(cfg *config, r *rng, i int, s *sink) string {
+	switch cfg.prop {
+	case "C01", "C13":
+		domain := cfg.prop == "C01" || r.chance(1, 2)
+		if cfg.prop == "C01" && i%5 == 4 {
+			s.count("lt.op.dec_mut")
+			enc, err := ltEncode(ltGenDB(r, s, true), false)
+			if err != nil {
+				return "dec -"
+			}
+			return "dec " + hexBytes(ltMutateDoc(r, enc))
+		}
+		s.count("lt.op.rt")
+		return "rt P=" + cfg.prop + " D=" + b01(domain) + " " + strings.Join(ltDumpDB(ltGenDB(r, s, domain)), " ")
+	}
 	// documents from a few bytes to several pipe buffers (4096-byte bufio chunks)
 	laps := pick(r, []int{0, 1, 2, 5, 20, 60, 150, 400})
 	pad := pick(r, []int{0, 10, 100, 3000, 5000})
@@ -160,6 +246,25 @@ func genLT(cfg *config, r *rng, i int, s *sink) string {
 
 func corpusLT(cfg *config) []string {
 	var ops []string
+	if cfg.prop == "C01" || cfg.prop == "C13" {
+		// the two real LapTimer exports in the repository (windows-1252 declared)
+		for _, n := range []string{"LapTimer-0009-20220607-110056.hlptr", "LapTimer-0060-20220624-164840.hlptr"} {
+			if d, err := os.ReadFile(filepath.Join(cfg.repo, "test", n)); err == nil && len(d) > 0 {
+				ops = append(ops, "dec "+hexBytes(d))
+			}
+		}
+		// past failures, minimal: every XML-significant character in one text field
+		db := laptimer.NewDB()
+		db.Laps = []laptimer.Lap{{Date: laptimer.LapDate(time.Unix(1654000000, 0)), Track: "q\" a' & < > \t \n \r", Note: "x"}}
+		ops = append(ops, "rt P="+cfg.prop+" D=1 "+strings.Join(ltDumpDB(db), " "))
+		if cfg.prop == "C01" {
+			// recorded finding: an omitempty fixed-decimal that is not zero but prints as zero
+			db2 := laptimer.NewDB()
+			db2.Laps = []laptimer.Lap{{Date: laptimer.LapDate(time.Unix(1654000000, 0)), Track: "t", AmbientTemp: 0.04}}
+			ops = append(ops, "rt P=C01 D=1 "+strings.Join(ltDumpDB(db2), " "))
+		}
+		return ops
+	}
 	// every write index of one two-buffer document, plain and gzip
 	for k := 0; k <= 48; k++ {
 		ops = append(ops, fmt.Sprintf("run laps=3 pad=3000 k=%d gz=0 procs=2 yield=1", k))
